@@ -377,7 +377,7 @@ func GenHistory(t *rapid.T, withTx bool, maxOps int) Case {
 func GenRequests(t *rapid.T, maxOps int) Case {
 	c := GenBase(t)
 	frs := Flatten(c.Rules)
-	twoRegs := chance(t, "tworegs", 15)
+	twoRegs := chance(t, "tworegs", 40)
 	n := rapid.IntRange(6, maxOps).Draw(t, "nops")
 	for i := 0; i < n; i++ {
 		op := Op{Kind: "set", Fields: map[string]interface{}{}}
